@@ -48,6 +48,34 @@ def collision_program(rng):
     return [a, b, c], kind
 
 
+def lint_program(rng):
+    """several files of one module: deprecated definitions declared in one, used at module scope (aliases) and inside definitions of the others;
+    each file may carry a file-level allow, each use its own; base names repeat across directories"""
+    k = rng.choice([2, 3, 3, 4])
+    ndep = rng.choice([1, 2])
+    decl = "module Lib\n" + "".join("[deprecated] %s\n" % rng.choice(["struct Old%d {}", "custom Old%d", "enum Old%d { A }"]).replace("%d", str(i)) for i in range(ndep)) + "struct Fine {}\n"
+    texts = [decl]
+    for j in range(1, k):
+        fa = rng.choice(["", "", "[[allow(Deprecated)]]\n", "[[allow(All)]]\n", "[[allow(BrokenDocLink)]]\n"])
+        body = []
+        for u in range(rng.choice([1, 2, 3])):
+            tgt = "Old%d" % rng.randrange(ndep)
+            al = rng.choice(["", "", "[allow(Deprecated)] ", "[allow(All)] "])
+            form = rng.choice(["alias", "alias", "field", "param", "doc"])
+            if form == "alias":
+                body.append("%stypealias A%d_%d = %s" % (al, j, u, tgt))
+            elif form == "field":
+                body.append("%sstruct S%d_%d { a: %s, b: Sequence<%s> }" % (al, j, u, tgt, tgt))
+            elif form == "param":
+                body.append("%sinterface I%d_%d { op(p: %s) -> %s }" % (al, j, u, tgt, tgt))
+            else:
+                body.append("/// See {@link Missing%d}.\n%sstruct D%d_%d {}" % (u, al.replace("Deprecated", "BrokenDocLink"), j, u))
+        texts.append(fa + "module Lib\n" + "\n".join(body) + "\n")
+    base = rng.choice([["Types.slice"] * k, ["Types.slice", "Types.slice"] + ["Main.slice"] * (k - 2), ["f%d.slice" % j for j in range(k)]])
+    names = ["d%d/%s" % (j, b) for j, b in enumerate(base)]
+    return texts, names
+
+
 def file_tables(mo):
     """decoded request -> ({path: file sexp text}, sources in order, references in order)"""
     from ..front_common import parse_sexp
@@ -72,13 +100,17 @@ def run(ck):
             texts, fam = collision_program(rng)
             progs.append((texts, "collision:" + fam, None))
             continue
+        if r < 0.40:
+            texts, names = lint_program(rng)
+            progs.append((texts, "lints", None, names))
+            continue
         g = slicegen.Gen(random.Random(rng.randrange(1 << 60)), nfiles=rng.choice([2, 3, 3, 4]), depth=2, foreign_attrs=False)
         prog = g.program()
         fam = "valid"
-        if r < 0.55:
+        if r < 0.65:
             nm = c04.inject(rng, prog)
             fam = "injected:%s" % nm if nm else "valid"
-        elif r < 0.7:
+        elif r < 0.8:
             # warnings: a deprecated definition used from another file
             d = prog["files"][0]["defs"][0]
             d["attrs"] = d["attrs"] + [("deprecated", ["old"])]
@@ -90,9 +122,10 @@ def run(ck):
         progs.append((slicegen.render(prog), fam, mline))
     # runs: the baseline twice (fresh processes), every permutation of up to 4 files (sampled beyond), source/reference assignments
     lines, index = [], []
-    for pi, (texts, fam, _) in enumerate(progs):
+    for pi, pr in enumerate(progs):
+        texts, fam = pr[0], pr[1]
         k = len(texts)
-        names = ["f%d.slice" % j for j in range(k)]
+        names = pr[3] if len(pr) > 3 else ["f%d.slice" % j for j in range(k)]
         perms = list(itertools.permutations(range(k)))
         if len(perms) > 6:
             perms = [perms[0]] + rng.sample(perms[1:], 5)
@@ -107,7 +140,7 @@ def run(ck):
             lines.append(dc.run_line(False, ["--diagnostic-format", "json"], [("gen-ok-0", None, None)], files))
             index.append((pi, vi, perm, roles))
     o = dc.run_all(lines, chunk=12)
-    ck.stream("orders", description="multi-file programs (valid; with one injected rule violation; with a deprecated definition used elsewhere; definitions sharing a scoped name across files; a definition sharing its scoped "
+    ck.stream("orders", description="multi-file programs (valid; with one injected rule violation; with a deprecated definition used elsewhere; several files of one module using deprecated definitions and broken links at module scope and inside definitions with file-level and element-level allow attributes, base names repeated across directories; definitions sharing a scoped name across files; a definition sharing its scoped "
               "name with a module declared in another file, several such collisions and redefinitions at once; re-opened modules; preprocessor symbols defined or undefined in one file and tested in another) run through the real binary with a capturing generator: the same command line four times in fresh processes, every permutation of up to 4 files, "
               "and source/reference re-assignments. Compared: stderr and generator request byte for byte between the two identical runs; acceptance (exit status) across all variants and against the rule model's verdict; "
               "for accepted programs every file's decoded request content and the multiset of warnings across all variants.")
@@ -122,8 +155,10 @@ def run(ck):
     dec = dict(zip(reqidx, core.run_model("request", reqs, chunk=100)))
     mverdicts = core.run_model("validate", [p[2] for p in progs if p[2]], chunk=500)
     mv = dict(zip([i for i, p in enumerate(progs) if p[2]], mverdicts))
-    for pi, (texts, fam, mline) in enumerate(progs):
-        case = "\n--\n".join("[f%d.slice]\n%s" % (j, t) for j, t in enumerate(texts))
+    for pi, pr in enumerate(progs):
+        texts, fam, mline = pr[0], pr[1], pr[2]
+        names = pr[3] if len(pr) > 3 else ["f%d.slice" % j for j in range(len(texts))]
+        case = "\n--\n".join("[%s]\n%s" % (names[j], t) for j, t in enumerate(texts))
         ck.count("orders", case + fam, kind=fam.split(":")[0] if not fam.startswith("collision") else fam)
         rs = runs.get(pi, [])
         if any(r is None or r["exit"] not in ("0", "1") for _, _, _, r, _ in rs):
@@ -159,8 +194,8 @@ def run(ck):
                 ck.violation("orders", "request-not-decodable", case, "a decodable request", dec.get((pi, vi), "no request")[:200])
                 break
             files, srcs, refs = tab
-            want_s = [hx("f%d.slice" % j) for j in perm if roles[j] == "S"]
-            want_r = [hx("f%d.slice" % j) for j in perm if roles[j] == "R"]
+            want_s = [hx(names[j]) for j in perm if roles[j] == "S"]
+            want_r = [hx(names[j]) for j in perm if roles[j] == "R"]
             if ["s:" + x for x in want_s] != srcs or ["s:" + x for x in want_r] != refs:
                 ck.violation("orders", "file-order-not-preserved", case, "sources %s then references %s" % (want_s, want_r), "%s / %s" % (srcs, refs))
             warns = sorted((d.get("error_code"), d.get("message"), str(d.get("span"))) for d in dc.json_diags(r["stderr"]) if d.get("severity") == "warning")
